@@ -535,7 +535,9 @@ func (c *controlConn) awaitSchemaAgreement() error {
 }
 
 func (c *controlConn) close() {
-	if atomic.CompareAndSwapInt32(&c.state, controlConnStarted, controlConnClosing) {
+	// Always move to closing: if the heartbeat goroutine has not run yet (state is still
+	// starting) its start CAS must fail, otherwise it would start after close and never stop.
+	if atomic.SwapInt32(&c.state, controlConnClosing) == controlConnStarted {
 		c.quit <- struct{}{}
 	}
 
